@@ -13,6 +13,7 @@ CONSTANTS Depth,        \* nesting depth of generated values
 Z == ZeroW
 A == <<7, 0, 0, 0, 0, 0, 0, 0>>
 B == <<7, 0, 0, 0, 0, 0, 0, 9>>
+C == <<0, 0, 0, 0, 0, 0, 0, 9>>      \* non-zero only in its upper half
 Cap(i) == [t |-> "cap", i |-> <<i, 0, 0, 0>>]
 S(d, p) == [t |-> "struct", d |-> d, p |-> p]
 Lst(k, e) == [t |-> "list", k |-> k, n |-> Len(e), e |-> e]
@@ -71,6 +72,15 @@ HasCap(v) == CASE v.t = "cap" -> TRUE
                                   ELSE FALSE
 
 \* body words of a primitive list
+\* Dirty = TRUE: the unused bits / bytes behind the last element carry garbage instead of zero
+PackBitsD(e, dirty) == [w \in 1..((Len(e) + 63) \div 64) |->
+                  [j \in 1..8 |-> LET base == (w - 1) * 64 + (j - 1) * 8
+                                      bit(x) == IF base + x <= Len(e) THEN e[base + x] ELSE (IF dirty THEN 1 ELSE 0) IN
+                     bit(1) + 2 * bit(2) + 4 * bit(3) + 8 * bit(4) + 16 * bit(5) + 32 * bit(6) + 64 * bit(7) + 128 * bit(8)]]
+PackBytesD(k, e, dirty) == LET eb == ElBytes(k)  total == eb * Len(e) IN
+                   [w \in 1..((total + 7) \div 8) |->
+                      [j \in 1..8 |-> LET b == (w - 1) * 8 + (j - 1) IN
+                         IF b < total THEN e[(b \div eb) + 1][(b % eb) + 1] ELSE (IF dirty THEN 165 ELSE 0)]]
 PackBits(e) == [w \in 1..((Len(e) + 63) \div 64) |->
                   [j \in 1..8 |-> LET base == (w - 1) * 64 + (j - 1) * 8 IN
                      (IF base + 1 <= Len(e) THEN e[base + 1] ELSE 0) + 2 * (IF base + 2 <= Len(e) THEN e[base + 2] ELSE 0)
@@ -97,30 +107,30 @@ PtrTo(v, paddr, at) ==
 
 FitW(ws, n) == [i \in 1..n |-> IF i <= Len(ws) THEN ws[i] ELSE Z]
 
-RECURSIVE Lay(_, _), LayPtrs(_, _, _, _, _)
+RECURSIVE LayG(_, _, _), LayPtrs(_, _, _, _, _, _)
 \* lay out the targets of the pointer values ps whose pointer words live at addresses paddrs (parallel sequences);
 \* next = first free word.  Returns [pw |-> sequence of pointer words, words |-> descendants' words]
-LayPtrs(ps, paddrs, i, next, acc) ==
+LayPtrs(ps, paddrs, i, next, acc, dirty) ==
   IF i > Len(ps) THEN acc
   ELSE LET v == ps[i]
-           child == Lay(v, next)
+           child == LayG(v, next, dirty)
            pw == PtrTo(v, paddrs[i], next)
-       IN LayPtrs(ps, paddrs, i + 1, next + Len(child), [pw |-> Append(acc.pw, pw), words |-> acc.words \o child])
+       IN LayPtrs(ps, paddrs, i + 1, next + Len(child), [pw |-> Append(acc.pw, pw), words |-> acc.words \o child], dirty)
 
-Lay(v, at) ==
+LayG(v, at, dirty) ==
   CASE v.t = "null" -> <<>>
     [] v.t = "struct" ->
          LET z == CanonSize(v)
              d == SubSeq(v.d, 1, z[1])
              ps == SubSeq(v.p, 1, z[2])
-             r == LayPtrs(ps, [i \in 1..z[2] |-> at + z[1] + i - 1], 1, at + z[1] + z[2], [pw |-> <<>>, words |-> <<>>])
+             r == LayPtrs(ps, [i \in 1..z[2] |-> at + z[1] + i - 1], 1, at + z[1] + z[2], [pw |-> <<>>, words |-> <<>>], dirty)
          IN d \o r.pw \o r.words
     [] v.t = "list" ->
          IF v.k = 0 THEN <<>>
-         ELSE IF v.k = 1 THEN PackBits(v.e)
-         ELSE IF v.k \in 2..5 THEN PackBytes(v.k, v.e)
+         ELSE IF v.k = 1 THEN PackBitsD(v.e, dirty)
+         ELSE IF v.k \in 2..5 THEN PackBytesD(v.k, v.e, dirty)
          ELSE IF v.k = 6 THEN
-              LET r == LayPtrs(v.e, [i \in 1..v.n |-> at + i - 1], 1, at + v.n, [pw |-> <<>>, words |-> <<>>])
+              LET r == LayPtrs(v.e, [i \in 1..v.n |-> at + i - 1], 1, at + v.n, [pw |-> <<>>, words |-> <<>>], dirty)
               IN r.pw \o r.words
          ELSE \* composite: tag, then elements; the elements' pointer targets follow the whole list
               LET z == ElemSize(v.e)
@@ -129,21 +139,25 @@ Lay(v, at) ==
                                                      IF pj <= Len(v.e[ei].p) THEN v.e[ei].p[pj] ELSE Null]
                   addrs == [q \in 1..(v.n * z[2]) |-> LET ei == ((q - 1) \div z[2]) + 1  pj == ((q - 1) % z[2]) + 1 IN
                                                       at + 1 + (ei - 1) * esz + z[1] + pj - 1]
-                  r == LayPtrs(allp, addrs, 1, at + 1 + v.n * esz, [pw |-> <<>>, words |-> <<>>])
+                  r == LayPtrs(allp, addrs, 1, at + 1 + v.n * esz, [pw |-> <<>>, words |-> <<>>], dirty)
                   body == [w \in 1..(v.n * esz) |-> LET ei == ((w - 1) \div esz) + 1  off == (w - 1) % esz IN
                                                     IF off < z[1] THEN WordAt(v.e[ei].d, off + 1)
                                                     ELSE r.pw[(ei - 1) * z[2] + (off - z[1]) + 1]]
               IN <<MkStruct(v.n, z[1], z[2])>> \o body \o r.words
 
+Lay(v, at) == LayG(v, at, FALSE)
+
 \* the canonical single-segment encoding of a struct value (root pointer + pre-order layout)
 Canon(v) == IF v.t = "null" THEN <<ZeroW>> ELSE <<PtrTo(v, 0, 1)>> \o Lay(v, 1)
+\* the same value in the same layout but with garbage in every list's padding: an input that must canonicalise to Canon(v)
+DirtyCanon(v) == IF v.t = "null" THEN <<ZeroW>> ELSE <<PtrTo(v, 0, 1)>> \o LayG(v, 1, TRUE)
 
 \* ---------------- generator ----------------
 RECURSIVE Vals(_)
-DataSeqs == { <<>>, <<A>>, <<Z>>, <<A, Z>>, <<Z, B>> }
-Leaves == { Null, Cap(0), S(<<>>, <<>>), S(<<A>>, <<>>),
+DataSeqs == { <<>>, <<A>>, <<Z>>, <<A, Z>>, <<Z, B>>, <<C>>, <<A, C>> }
+Leaves == { Null, Cap(0), S(<<>>, <<>>), S(<<A>>, <<>>), S(<<A, C>>, <<>>), S(<<C>>, <<>>),
             Void(2), Lst(1, <<1, 0, 1>>), Lst(2, <<>>), Lst(2, << <<7>>, <<0>> >>), Lst(3, << <<7, 0>> >>), Lst(5, <<A, B>>),
-            Lst(6, <<>>), Comp(1, 0, <<S(<<A>>, <<>>), S(<<B>>, <<>>)>>), Comp(0, 0, <<S(<<>>, <<>>)>>) }
+            Lst(6, <<>>), Comp(1, 0, <<S(<<A>>, <<>>), S(<<B>>, <<>>)>>), Comp(2, 0, <<S(<<A, C>>, <<>>), S(<<Z, Z>>, <<>>)>>), Comp(0, 0, <<S(<<>>, <<>>)>>) }
 Vals(d) ==
   IF d = 0 THEN Leaves
   ELSE LET sub == Vals(d - 1) IN
@@ -155,7 +169,7 @@ Vals(d) ==
 
 \* one-edit neighbours (plus the value itself): the interesting pairs for equality
 RECURSIVE Nbrs(_)
-EditData(d) == { d, Append(d, Z), Append(d, B) } \cup (IF Len(d) > 0 THEN { [d EXCEPT ![1] = IF d[1] = A THEN B ELSE A], SubSeq(d, 1, Len(d) - 1) } ELSE {})
+EditData(d) == { d, Append(d, Z), Append(d, B), Append(d, C) } \cup (IF Len(d) > 0 THEN { [d EXCEPT ![1] = IF d[1] = A THEN B ELSE A], SubSeq(d, 1, Len(d) - 1) } ELSE {})
 Nbrs(v) ==
   CASE v.t = "null" -> { v, S(<<>>, <<>>), Lst(2, <<>>) }
     [] v.t = "cap" -> { v, Cap(1 - v.i[1]), Null }
@@ -196,6 +210,7 @@ CanonSound == (cur.t = "struct" /\ ~HasCap(cur)) =>
                  LET c == Canon(cur)  back == Value(<<c>>, 8) IN
                  /\ Clean(back) /\ ValEq(back, cur) = "yes" /\ WellFormed(<<c>>, 8)
                  /\ Canon(back) = c
+                 /\ ValEq(Value(<<DirtyCanon(cur)>>, 8), cur) = "yes" 
 \* equal values have the same canonical form (kind-preserving edits only: list upgrades keep their kind)
 RECURSIVE SameKinds(_, _)
 SameKinds(a, b) == IF a.t # b.t THEN a.t = "null" \/ b.t = "null"
@@ -210,5 +225,6 @@ CanonLayoutIndependent == (cur.t = "struct" /\ ~HasCap(cur)) =>
 EmitEq == Mode = "eq" => \A n \in Nbrs(cur) : PrintT(<<"PAIR", ToJson([a |-> cur, b |-> n, eq |-> ValEq(cur, n)])>>)
 EmitCanon == Mode = "canon" => (cur.t = "struct" =>
                \A n \in { x \in Nbrs(cur) : x.t = "struct" } :
-                  PrintT(<<"CANON", ToJson([v |-> n, hascap |-> HasCap(n), canon |-> IF HasCap(n) THEN <<>> ELSE Canon(n)])>>))
+                  PrintT(<<"CANON", ToJson([v |-> n, hascap |-> HasCap(n), canon |-> IF HasCap(n) THEN <<>> ELSE Canon(n),
+                                            dirty |-> IF HasCap(n) THEN <<>> ELSE DirtyCanon(n)])>>))
 =============================================================================
